@@ -162,6 +162,22 @@ static void judge(Ctx& ctx, const Case& c, bool from_replay) {
       }
 #endif
       break; }
+    case 6: {   // rounding ties: double -> integer conversions of exact half-integers (Point<T>::Init) must agree in both builds
+      const int sub = (int)c.geti("sub"); const double q = c.getd("quantum", 0.5);
+      auto td = [&](const Paths64& pp) { PathsD r; for (auto& p : pp) { PathD qd; for (auto& pt : p) { PointD d((double)pt.x * q, (double)pt.y * q);
+#ifdef USINGZ
+        d.z = pt.z;
+#endif
+        qd.push_back(d); } r.push_back(qd); } return r; };
+      if (sub == 0) { ClipperOffset co(c.getd("miter", 2.0), 0.0, pc, rev); co.AddPaths(S, (JoinType)c.geti("jt"), EndType::Polygon); if (!O.empty()) co.AddPaths(O, (JoinType)c.geti("jt"), (EndType)c.geti("et"));
+        Paths64 sol; co.Execute(c.getd("delta"), sol); hpaths(sol); }
+      else if (sub == 1) { ClipperD cl(0); cl.PreserveCollinear(pc); cl.ReverseSolution(rev); cl.AddSubject(td(S)); cl.AddClip(td(C)); cl.AddOpenSubject(td(O));
+        PathsD sol, solo; cl.Execute((ClipType)ct, (FillRule)fr, sol, solo); hpathsd(sol); hpathsd(solo); }
+      else if (sub == 2) { hpathsd(InflatePaths(td(S), c.getd("delta"), (JoinType)c.geti("jt"), EndType::Polygon, c.getd("miter", 2.0), 0, 0.0)); }
+      else { const Path64 rp = c.P("rect")[0]; RectD rect((double)rp[0].x * q, (double)rp[0].y * q, (double)rp[1].x * q, (double)rp[1].y * q);
+        hpathsd(RectClip(rect, td(S), 0)); hpathsd(RectClipLines(rect, td(O), 0)); }
+      ctx.count("tie_cases_sub" + std::to_string(sub));
+      break; }
     default: {  // 4: rectangle clipping
       const Path64 rp = c.P("rect")[0]; Rect64 rect(rp[0].x, rp[0].y, rp[1].x, rp[1].y);
       hpaths(RectClip(rect, S)); hpaths(RectClipLines(rect, O)); hpaths(RectClip(rect, C));
@@ -176,7 +192,7 @@ static void judge(Ctx& ctx, const Case& c, bool from_replay) {
 }
 
 void vf_case(Ctx& ctx, uint64_t i) {
-  Rng& r = ctx.rng; Case c; int fam = (int)(i % 6); c.seti("fam", fam);
+  Rng& r = ctx.rng; Case c; int fam = (int)(i % 7); c.seti("fam", fam);
   c.seti("ct", r.irange(1, 4)); c.seti("fr", r.irange(0, 3)); c.seti("pc", r.coin()); c.seti("rev", r.coin());
   c.seti("cbmode", r.irange(0, 3)); c.seti("zseed", (long long)(r.next() >> 2)); c.seti("gp", 0);
   if (fam <= 2) {
@@ -209,6 +225,17 @@ void vf_case(Ctx& ctx, uint64_t i) {
     auto lp = [&](int n) { Path64 p; for (int k = 0; k < n; ++k) p.push_back(Point64(r.range(0, G) * s, r.range(0, G) * s)); return p; };
     c.p64["S"] = Paths64{ lp(r.irange(3, 12)), lp(r.irange(3, 8)) }; c.p64["C"] = Paths64{ gen::random_poly(r, 5 * s, 5 * s, 7 * s, r.irange(3, 10)) }; c.p64["O"] = Paths64{ lp(r.irange(2, 8)) };
     int64_t a = r.range(0, G - 1), b = r.range(0, G - 1); c.p64["rect"] = Paths64{ Path64{ Point64(a * s, b * s), Point64(r.range(a + 1, G) * s, r.range(b + 1, G) * s) } };
+  } else if (fam == 6) {
+    // lattice (mostly axis-parallel) shapes in integer units; quantum 0.5 or 0.25 turns them into exact half / quarter
+    // units, half-integer deltas put mitered offsets exactly on .5 before rounding
+    int sub = r.irange(0, 3); c.seti("sub", sub);
+    int G = 12; auto lat = [&](int n) { Path64 p; for (int k = 0; k < n; ++k) p.push_back(Point64(r.range(-G, G), r.range(-G, G))); return p; };
+    Paths64 S; int n = r.irange(1, 3); for (int k = 0; k < n; ++k) { if (r.coin()) { int64_t a = r.range(-G, G - 1), b = r.range(-G, G - 1); S.push_back(gen::box(a, b, r.range(a + 1, G), r.range(b + 1, G), true)); } else S.push_back(lat(r.irange(3, 7))); }
+    c.p64["S"] = S; c.p64["C"] = Paths64{ lat(r.irange(3, 6)) }; c.p64["O"] = Paths64{ lat(r.irange(2, 5)) };
+    c.seti("jt", r.irange(0, 3)); c.seti("et", r.irange(1, 4)); c.setd("miter", r.pick(std::vector<double>{ 1.0, 2.0, 4.0 }));
+    c.setd("delta", (double)r.irange(-6, 6) + 0.5); c.setd("quantum", sub == 1 ? 0.25 : 0.5);
+    int64_t a = r.range(-G, G - 1), b = r.range(-G, G - 1); c.p64["rect"] = Paths64{ Path64{ Point64(a, b), Point64(r.range(a + 1, G), r.range(b + 1, G)) } };
+    if (sub == 0) for (auto* k : { "S", "O" }) for (auto& p : c.p64[k]) for (auto& pt : p) { pt.x *= 3; pt.y *= 3; }
   } else {
     int64_t R = (int64_t)1 << r.irange(3, 40);
     c.p64["S"] = gen::zoo_paths(r, R, 4); c.p64["C"] = gen::zoo_paths(r, R, 4); c.p64["O"] = r.coin() ? gen::zoo_paths(r, R, 2) : Paths64();
